@@ -46,10 +46,9 @@ structure DState where
       the hand-written model; `some why` once an operation did not complete -/
   src : Bool := false
   srcStuck : Option String := none
-  /-- policies in which the definitions' `next` cells are null: the `decode` op stands for a process that
-      starts with the encoded data instead of running `update`, and `decode_dispatch_data` does not write
-      the `next` cells (known finding D15); an `update` fills them -/
-  nextNull : List String := []
+  /-- the definitions' `next` cells as `decode_dispatch_data` restored them, per policy in which the latest
+      tables were installed by the `decode` op (an `update` recomputes them) -/
+  decNexts : List (String × List (List Cell)) := []
   vars : List (String × VPtr) := []
   encoded : Option Emitted := none
   /-- oracle mode: the pointee class of each `virtual_ptr` variable -/
@@ -137,13 +136,12 @@ def zipArgs : List Kind → List Nat → List (Kind × Nat)
     else (k, 0) :: zipArgs ks ids
 
 /-- follow `next` from a definition: the chain of definition ids and how it ends -/
-def nextChain (c : Compiled) (mi : Nat) : Nat → Nat → List Nat × Option Cell
+def nextChain (c : Compiled) (nexts : List (List Cell)) (mi : Nat) : Nat → Nat → List Nat × Option Cell
   | 0, _ => ([], none)
   | fuel + 1, i =>
-    let o := c.outs[mi]?
     let me := ((c.methods[mi]?.bind (fun m => m.specs[i]?)).map (·.1)).getD 0
-    match o.bind (fun o => o.nexts[i]?) with
-    | some (.defn j) => let (l, e) := nextChain c mi fuel j; (me :: l, e)
+    match (nexts[mi]?).bind (fun l => l[i]?) with
+    | some (.defn j) => let (l, e) := nextChain c nexts mi fuel j; (me :: l, e)
     | some other => ([me], some other)
     | none => ([me], none)
 
@@ -392,7 +390,7 @@ def step (d : DState) (tok : List String) : DState × List String :=
         let (s', out, _) := s.update d.rng
         let d := { (d.set s') with rng := [] }
         match out with
-        | .ok => ({ d with nextNull := d.nextNull.filter (fun n => some n != d.cur) }, ["update ok"])
+        | .ok => ({ d with decNexts := d.decNexts.filter (fun e => some e.1 != d.cur) }, ["update ok"])
         | .raised (.unknownClass id) =>
           if d.handlerReturns || s.cfg.err == .backward then ({ d with dead := true }, ["!signal 6"])
           else (d, [s!"update raised unknown_class {id}"])
@@ -476,9 +474,16 @@ def step (d : DState) (tok : List String) : DState × List String :=
                   (((s.classes.zip dec.vptrs).find? (fun (p : (Nat × ClassRec) × Option Int) => s.cfg.proj p.1.2.id == k && p.2.isSome)).bind (·.2)).getD 0
               s!"dclass {e.2.id} vp={vp}")
             let inst := dec.toInstalled
-            ({ (d.set { s with inst := some inst }) with nextNull := d.nextNull ++ d.cur.toList },
+            match decodeNext em ms with
+            | .error (.fault w) => (d, [s!"decode fault {w}"])
+            | .error _ => (d, ["decode fault"])
+            | .ok nx =>
+            let cur := d.cur.getD ""
+            ({ (d.set { s with inst := some inst }) with decNexts := d.decNexts.filter (fun e => e.1 != cur) ++ [(cur, nx)] },
              ["decode ok"] ++ recLines ++ [s!"dvtbls {fmtList w dec.vtbls}", s!"ddtbls {fmtList w dec.dtbls}"] ++
-               (List.zipIdx c.methods).map (fun (m, mi) => s!"dss {m.key} {fmtNats ((dec.ss[mi]?).getD [])}"))
+               (List.zipIdx c.methods).map (fun (m, mi) => s!"dss {m.key} {fmtNats ((dec.ss[mi]?).getD [])}") ++
+               (List.zipIdx c.methods).map (fun (m, mi) =>
+                 s!"dnext {m.key} {fmtList (fun (cl : Cell) => cellStr (defId mi) cl) ((nx[mi]?).getD [])}"))
         | _, _ => (d, ["skipped: nothing encoded"])
       | "lookup", _ =>
         match s.inst with
@@ -515,11 +520,13 @@ def step (d : DState) (tok : List String) : DState × List String :=
               if c == "callnext" then
                 match out, s.compiled with
                 | .ran did, some cp =>
-                  if d.cur.any (d.nextNull.contains ·) then (d, [s!"ran {fmtNats [did]} next-null"]) else
                   match (List.zipIdx cp.methods).find? (fun e => e.1.key == key) with
                   | some (mc, mi) =>
                     let i := (mc.specs.findIdx? (fun sp => sp.1 == did)).getD 0
-                    let (chain, e) := nextChain cp mi (mc.specs.length + 1) i
+                    let nexts := match d.decNexts.find? (fun e => some e.1 == d.cur) with
+                      | some e => e.2
+                      | none => cp.outs.map (·.nexts)
+                    let (chain, e) := nextChain cp nexts mi (mc.specs.length + 1) i
                     match e with
                     | some cell =>
                       if d.handlerReturns then ({ d with dead := true }, ["!signal 6"])
